@@ -25,9 +25,19 @@ package keeper
 //@   returns random, err
 //@   ensures read_back: err == nil ==> has(randoms, reqID) && random == get(randoms, reqID)
 //@   ensures unknown:   !has(randoms, reqID) ==> err != nil
+//@   ensures found:     has(randoms, reqID) ==> err == nil
 //@ end
 
 // Oracle-seeded requests ask the service module for a seed (foreign keeper, A-MODSEP): no effect on this module's store.
+// The query a consumer uses: the id string it was given reads back the stored random number (C18) - the id is decoded
+// as it stands, nothing is stripped from it.
+//@ func Keeper.Random(c, req)
+//@   property C18
+//@   returns resp, err
+//@   ensures reads_back: ufb("hex_ok", req.ReqId) && has(randoms, unhex(req.ReqId)) ==> err == nil && !resp.Random.isnil && resp.Random.val == get(randoms, unhex(req.ReqId))
+//@   ensures not_invented: err == nil ==> has(randoms, unhex(req.ReqId)) && !resp.Random.isnil && resp.Random.val == get(randoms, unhex(req.ReqId))
+//@ end
+
 //@ func Keeper.RequestService(ctx, consumer, serviceFeeCap)
 //@   property C18
 //@   returns id, err
